@@ -15,7 +15,7 @@ RULE = ("bin()/hex()/base_repr() of an object holding a given code vs string ima
 ASSUMPTIONS = ['objects are created from raw codes', 'signed formats need n_word>=2 for parsing (a 1-bit signed literal is rejected by the parser by design)']
 EXHAUSTIVE = False    # the whole quantifier is not enumerated; complete sub-domains are listed in EXHAUSTIVE_SUBDOMAINS
 EXHAUSTIVE_SUBDOMAINS = {'quick': ['all codes x all n_frac 0..n_word for n_word<=8, both signednesses: rendering + all parse routes'], 'thorough': ['same for n_word<=10']}
-REQUIRED_CLASSES = {'negative': 500, 'wide>=64': 200, 'array': 200, 'array2d': 50}
+REQUIRED_CLASSES = {'negative': 500, 'wide>=64': 200, 'array': 200, 'array2d': 50, 'array:w54-63': 30}
 WIDTHS = [15, 16, 17, 31, 32, 33, 53, 63, 64, 65, 100, 128, 256]
 
 
@@ -120,7 +120,7 @@ def check_array(ctx, case):
     shape = tuple(case['shape'])
     F = C.Fxp()
     ctx.ev()
-    sig = 'array%dd/%s' % (len(shape), 'wide' if w >= 64 else 'core')
+    sig = 'array%dd/%s' % (len(shape), 'wide' if w >= 64 else 'w54-63' if w >= 54 else 'core')
     arr = np.array(codes, dtype=object if w > 62 else np.int64).reshape(shape)
     ok, x = ctx.guard(case, lambda: F(arr, s, w, f, raw=True), sig_prefix=sig + '/')
     if not ok:
@@ -149,7 +149,9 @@ def check_array(ctx, case):
     lib_bin, lib_bin0, lib_hex = x.bin(), x.bin(prefix='0b'), x.hex()
     want_bin0 = nested(['0b' + M.bin_image(k, w) for k in codes], shape)
     import fxpmath
-    feeds = [('lib-bin', lib_bin0, lib_bin), ('lib-hex', lib_hex, None), ('model-bin', want_bin0, want_bin), ('model-hex', want_hex, None)]
+    feeds = [('lib-bin', lib_bin0, lib_bin), ('lib-hex', lib_hex, None), ('model-bin', want_bin0, want_bin), ('model-hex', want_hex, None),
+             # the same texts held by a numpy array of strings (what bin()/hex() of a 2-d object return row by row)
+             ('ndarray-bin', np.array(want_bin0), np.array(want_bin)), ('ndarray-hex', np.array(want_hex), None)]
     for tname, text, bare in feeds:
         routes = [('ctor-raw', lambda t=text: F(t, s, w, f, raw=True)), ('set_val-raw', lambda t=text: F(None, s, w, f).set_val(t, raw=True))]
         if bare is not None:
@@ -258,6 +260,8 @@ def body_array(ctx, case):
         ctx.cls('array2d')
     if fmt[1] >= 64:
         ctx.cls('wide>=64')
+    elif fmt[1] >= 54:
+        ctx.cls('array:w54-63')
     ctx.nontrivial(('array', fmt, tuple(int(k) for k in case['codes']), tuple(case['shape'])))
     ctx.sample(case, True)
     check_array(ctx, case)
